@@ -27,6 +27,10 @@ def run(ctx):
         beh = [json.load(open(ctx.replay))["detail"]["behaviour"]]
     else:
         beh = cscommon.directed(ctx) + cscommon.env_behaviours(ctx, ctx.pick(40, 400), max_crash=2, max_ops=ctx.pick(14, 18))
+        if not ctx.quick():
+            # the disagreement behaviours that TLC finds in the sensitivity configuration of CsAbstract (lock round not
+            # persisted on re-lock), compiled into schedules: the repaired engine must refuse to follow them
+            beh += cscommon.abstract_schedules(ctx, 60, cex=True, seed_off=7)
     recs = cscommon.run_nodes(ctx, beh, cscommon.C01_KINDS, shards=ctx.pick(14, 16))
     ctx.absorb(recs)
     # several real engines under one schedule: Agreement over the real Finalize calls + CsContract per engine
